@@ -164,12 +164,13 @@ def run(ctx):
     def call(entry, pr, F, kkt, opts):
         a = {"G": sr.mk(pr.G, pr.sparse_lin), "h": sr.mk(pr.h), "dims": pr.dims.asdict(), "A": sr.mk(pr.A, pr.sparse_lin), "b": sr.mk(pr.b)}
         try:
-            if entry == "cpl":
-                sol = solvers.cpl(sr.mk(pr.c), F, a["G"], a["h"], a["dims"], a["A"], a["b"], kktsolver=kkt, options=opts)
-            elif entry == "cp":
-                sol = solvers.cp(F, a["G"], a["h"], a["dims"], a["A"], a["b"], kktsolver=kkt, options=opts)
-            else:
-                sol = solvers.gp(pr.K, sr.mk(pr.Fgp, pr.sparse_lin), sr.mk(pr.ggp), a["G"], a["h"], a["A"], a["b"], kktsolver=kkt, options=opts)
+            with sr.poisoned_globals_if_empty(opts):
+                if entry == "cpl":
+                    sol = solvers.cpl(sr.mk(pr.c), F, a["G"], a["h"], a["dims"], a["A"], a["b"], kktsolver=kkt, options=opts)
+                elif entry == "cp":
+                    sol = solvers.cp(F, a["G"], a["h"], a["dims"], a["A"], a["b"], kktsolver=kkt, options=opts)
+                else:
+                    sol = solvers.gp(pr.K, sr.mk(pr.Fgp, pr.sparse_lin), sr.mk(pr.ggp), a["G"], a["h"], a["A"], a["b"], kktsolver=kkt, options=opts)
             return sol, None
         except Exception as e:
             return None, e
